@@ -187,6 +187,11 @@ class FieldData:
         raise gfapy.RuntimeError(
           "The value of field '{}' cannot be changed, ".format(fieldname)+
           "as the line belongs to a GFA instance")
+      if fieldname == "record_type":
+        # (the lines of a Gfa are stored by record type)
+        raise gfapy.RuntimeError(
+          "The record type cannot be changed, "+
+          "as the line belongs to a GFA instance")
       if (fieldname == self.__class__.STORAGE_KEY) or \
         (self.__class__.STORAGE_KEY == "name" and \
         fieldname == self.__class__.NAME_FIELD):
